@@ -65,6 +65,7 @@ func c11Run(ops []string, seed int) (lines []string, viols []Violation, info map
 			st.Shutdown()
 		}
 	}()
+	st.ReuseNoise = true // one NoiseGrpcConn per side for the whole session, as with gRPC credentials
 	st.EagerAccept = seed%2 == 0
 	info = map[string]interface{}{"eager_accept": st.EagerAccept}
 	if dbgRelay != nil {
